@@ -171,10 +171,23 @@ pub fn answer(ns: &'static Namespace<'static>, op: &Op) -> String {
             // bounded liveness of the walk: the store has four records, a terminating walk follows
             // each ref a few times at most
             let calls = std::cell::Cell::new(0u32);
+            // a resolver may consult the namespace itself (e.g. to decide by def which record to
+            // hand out): queries of its own, on this thread, inside the relationship query. If the
+            // outer query still holds a cache guard when it calls back, the first of these that has
+            // to fill an entry of the same shard never returns.
+            let reenter = op.rec.iter().any(|t| t == "reenter");
             let resolve = |r: &Ref| {
                 calls.set(calls.get() + 1);
                 if calls.get() > 2000 {
                     panic!("VERIF relationship query made more than 2000 resolver callbacks over a store of 4 records: it does not terminate");
+                }
+                if reenter {
+                    let mut names: Vec<&Symbol> = ns.defs.keys().collect();
+                    names.sort();
+                    for n in names {
+                        let _ = ns.inheritance(n);
+                        let _ = ns.all_subtypes_of(n);
+                    }
                 }
                 db.get(r.value.as_str()).map(|tags| record_of(&tags.iter().map(|s| s.to_string()).collect::<Vec<_>>()))
             };
@@ -290,6 +303,8 @@ pub fn gen_taxonomy_n(rng: &mut Rng, n: usize) -> (String, Vec<String>) {
     // must not be tripped by a query that is merely slow.
     const MAX_LEVEL: usize = 6;
     let mut levels: Vec<usize> = Vec::new();
+    // one taxonomy in six has defs that join the namespace after `make` (see make_ns_of)
+    let late_mode = rng.chance(1, 6);
     for i in 0..n {
         let name = format!("d{i}");
         let mut is: Vec<String> = Vec::new();
@@ -325,7 +340,9 @@ pub fn gen_taxonomy_n(rng: &mut Rng, n: usize) -> (String, Vec<String>) {
         if rng.chance(1, 3) {
             extra.push(("capacity", format!("{}{}", rng.range(1, 12), rng.pick_str(&["kW", "cfm", "m", "", "°C"]))));
         }
-        if rng.chance(1, 5) {
+        if late_mode && rng.chance(1, 4) {
+            extra.push(("doc", format!("\"{LATE_DOC}\"")));
+        } else if rng.chance(1, 5) {
             extra.push(("doc", format!("\"about d{i}\"")));
         }
         rows.push(row(&name, &isr, &extra));
@@ -410,6 +427,9 @@ pub fn gen_op(rng: &mut Rng, syms: &[String], hot: &[String]) -> Op {
             }
             if rng.chance(1, 3) {
                 op.rec.push("noIds".into());
+            }
+            if rng.chance(1, 3) {
+                op.rec.push("reenter".into());
             }
         }
         "filter_ctx" => {
@@ -623,7 +643,29 @@ fn last_panic_loc() -> String {
 
 fn make_ns(defs_text: &str) -> &'static Namespace<'static> {
     let grid = zinc_from_str(defs_text).ok().and_then(|v| Grid::try_from(&v).ok()).unwrap_or_default();
-    Box::leak(Box::new(Namespace::make(grid)))
+    make_ns_of(&grid)
+}
+
+/// The doc text that marks a def as added after `Namespace::make`.
+const LATE_DOC: &str = "verif-late";
+
+/// A namespace over `grid`. Defs whose doc is [LATE_DOC] are not given to `make` but put into the
+/// public `defs` map afterwards, the way an application extends a loaded library with defs of its
+/// own: the indexes `make` computed do not know them, the lazily filled caches meet them later -
+/// and whatever a query answers about them, it answers it whenever it is asked.
+fn make_ns_of(grid: &Grid) -> &'static Namespace<'static> {
+    let is_late = |d: &Dict| d.get_str("doc").is_some_and(|s| s.value == LATE_DOC);
+    if !grid.rows.iter().any(is_late) {
+        return Box::leak(Box::new(Namespace::make(grid.clone())));
+    }
+    let early: Vec<Dict> = grid.rows.iter().filter(|d| !is_late(d)).cloned().collect();
+    let mut ns = Namespace::make(Grid::make_from_dicts(early));
+    for d in grid.rows.iter().filter(|d| is_late(d)) {
+        if let Some(sym) = d.get_symbol("def") {
+            ns.defs.insert(sym.clone(), d.clone());
+        }
+    }
+    Box::leak(Box::new(ns))
 }
 
 unsafe fn free_ns(ns: &'static Namespace<'static>) {
@@ -771,7 +813,7 @@ fn scenario(defs_text: &Arc<String>, threads: &Arc<Vec<Vec<Op>>>, slot: &Arc<Std
         let key = serde_json::to_string(op).unwrap();
         let expect = cache.entry(key).or_insert_with(|| {
             // a different instance, cold, single-threaded, asked this one query only
-            let fresh: &'static Namespace<'static> = Box::leak(Box::new(Namespace::make(ref_grid.clone())));
+            let fresh: &'static Namespace<'static> = make_ns_of(&ref_grid);
             let a = answer(fresh, op);
             unsafe { free_ns(fresh) };
             a
